@@ -43,7 +43,7 @@ type Exec struct {
 	// WidenAtEntry: explore, at every loop entry, one generic iteration (heap forgotten, loop phis unknown) that
 	// subsumes all iterations; concrete unrolling beyond Unroll visits is then simply cut. Keeps path counts linear.
 	WidenAtEntry bool
-	Stats      struct{ Instrs, Calls, Forks, Widen int }
+	Stats      struct{ Instrs, Calls, Forks, Widen, CopyLoops int }
 }
 
 type Frame struct {
@@ -226,6 +226,13 @@ func (ex *Exec) enter(fr *Frame, st *State, b *ssa.BasicBlock, prev *ssa.BasicBl
 			}
 			phis = append(phis, phi)
 			vals = append(vals, ex.eval(fr, st, phi.Edges[idx]))
+		}
+	}
+	if isHead && prev != nil {
+		if li := ex.loopHeads(fr.fn)[b]; !li.Body[prev] {
+			if outs, ok := ex.copyLoop(fr, st, li, phis, vals); ok {
+				return outs
+			}
 		}
 	}
 	if isHead && prev != nil && ex.WidenAtEntry {
@@ -1410,4 +1417,166 @@ func (ex *Exec) havocLoop(fr *Frame, st *State, li *loopInfo) {
 			}
 		}
 	}
+}
+
+// copyLoop: summary of the element-wise copy idiom
+//     for i := c0; i < n; i++ { dst[i] = src[i] }        (also: for i := range src { dst[i] = src[i] } / for i, v := range src { dst[i] = v })
+// as copy(dst[c0:n], src[c0:n]). Applied only when the loop consists of exactly the head and one body block doing
+// nothing else, dst/src/n are defined outside the loop, and c0 <= n <= len(dst), len(src) are decided in the state
+// (otherwise the generic loop treatment applies and reports possible bounds violations as usual).
+func (ex *Exec) copyLoop(fr *Frame, st *State, li *loopInfo, phis []*ssa.Phi, vals []Val) ([]Outcome, bool) {
+	head := li.Head
+	if len(li.Body) != 2 || len(phis) != 1 || len(head.Succs) != 2 {
+		return nil, false
+	}
+	var body, exit *ssa.BasicBlock
+	for bb := range li.Body {
+		if bb != head {
+			body = bb
+		}
+	}
+	if head.Succs[0] != body || li.Body[head.Succs[1]] || len(body.Succs) != 1 || body.Succs[0] != head {
+		return nil, false
+	}
+	exit = head.Succs[1]
+	phi := phis[0]
+	outside := func(v ssa.Value) bool {
+		switch x := v.(type) {
+		case *ssa.Const, *ssa.Parameter, *ssa.FreeVar, *ssa.Global:
+			return true
+		case ssa.Instruction:
+			return !li.Body[x.Block()]
+		}
+		return false
+	}
+	// head: [inc = phi + 1] ; cmp = idx < n ; if cmp
+	var idx ssa.Value = phi
+	var inc *ssa.BinOp
+	var cmp *ssa.BinOp
+	for _, in := range head.Instrs[firstNonPhi(head):] {
+		switch x := in.(type) {
+		case *ssa.DebugRef:
+		case *ssa.BinOp:
+			if x.Op == token.ADD && x.X == ssa.Value(phi) {
+				if k, ok := constInt(x.Y); ok && k == 1 && inc == nil {
+					inc = x
+					idx = x
+					continue
+				}
+			}
+			if x.Op == token.LSS && cmp == nil {
+				cmp = x
+				continue
+			}
+			return nil, false
+		case *ssa.If:
+			if cmp == nil || x.Cond != ssa.Value(cmp) {
+				return nil, false
+			}
+		default:
+			return nil, false
+		}
+	}
+	if cmp == nil || cmp.X != idx || !outside(cmp.Y) {
+		return nil, false
+	}
+	// body: &dst[idx], &src[idx], load, store, [inc], jump
+	var dstA, srcA *ssa.IndexAddr
+	var load *ssa.UnOp
+	var store *ssa.Store
+	for _, in := range body.Instrs {
+		switch x := in.(type) {
+		case *ssa.DebugRef, *ssa.Jump:
+		case *ssa.IndexAddr:
+			if x.Index != idx || !outside(x.X) {
+				return nil, false
+			}
+			if dstA == nil && srcA == nil {
+				// role decided below by use
+			}
+			if srcA == nil {
+				srcA = x
+			} else if dstA == nil {
+				dstA = x
+			} else {
+				return nil, false
+			}
+		case *ssa.UnOp:
+			if x.Op != token.MUL || load != nil {
+				return nil, false
+			}
+			load = x
+		case *ssa.Store:
+			if store != nil {
+				return nil, false
+			}
+			store = x
+		case *ssa.BinOp:
+			if inc != nil || x.Op != token.ADD || x.X != ssa.Value(phi) {
+				return nil, false
+			}
+			if k, ok := constInt(x.Y); !ok || k != 1 {
+				return nil, false
+			}
+			inc = x
+		default:
+			return nil, false
+		}
+	}
+	if inc == nil || load == nil || store == nil || srcA == nil || dstA == nil || store.Val != ssa.Value(load) {
+		return nil, false
+	}
+	if load.X == ssa.Value(dstA) && store.Addr == ssa.Value(srcA) {
+		srcA, dstA = dstA, srcA
+	}
+	if load.X != ssa.Value(srcA) || store.Addr != ssa.Value(dstA) {
+		return nil, false
+	}
+	// the back edge of the phi must be the increment
+	okBack := false
+	for i, e := range phi.Edges {
+		if head.Preds[i] == body && e == ssa.Value(inc) {
+			okBack = true
+		}
+	}
+	if !okBack {
+		return nil, false
+	}
+	// values
+	c0, _ := vals[0].(*IntV)
+	n, _ := ex.eval(fr, st, cmp.Y).(*IntV)
+	dst, _ := ex.eval(fr, st, dstA.X).(*SliceV)
+	src, _ := ex.eval(fr, st, srcA.X).(*SliceV)
+	if c0 == nil || n == nil || dst == nil || src == nil || dst.Unk || src.Unk || dst.Nil || src.Nil {
+		return nil, false
+	}
+	c0 = st.Convert(c0, 64, true)
+	n = st.Convert(n, 64, true)
+	first := c0
+	if idx == ssa.Value(inc) { // range form: the first index is phi+1
+		first = st.Arith(token.ADD, c0, mkConst(1, 64, true), "")
+	}
+	dec := func(op string, a, b *IntV) bool { v, k := st.Decide(op, a, b); return k && v }
+	if !dec(">=", first, mkConst(0, 64, true)) || !dec("<=", first, n) || !dec("<=", n, dst.Len) || !dec("<=", n, src.Len) {
+		return nil, false
+	}
+	cnt := st.Arith(token.SUB, n, first, "")
+	d := &SliceV{Obj: dst.Obj, Path: dst.Path, Off: st.Arith(token.ADD, dst.Off, first, ""), Len: cnt, Cap: cnt}
+	sv := &SliceV{Obj: src.Obj, Path: src.Path, Off: st.Arith(token.ADD, src.Off, first, ""), Len: cnt, Cap: cnt}
+	ex.copyOp(st, []Val{d, sv}, nil)
+	// leave the loop: phi / idx hold the final index values, the exit test is false
+	if idx == ssa.Value(inc) {
+		fr.regs[phi] = st.Arith(token.SUB, n, mkConst(1, 64, true), "")
+		fr.regs[inc] = st.Convert(n, c0.W, c0.Signed)
+	} else {
+		fr.regs[phi] = n
+	}
+	if pv, ok := vals[0].(*IntV); ok {
+		if iv, ok := fr.regs[phi].(*IntV); ok {
+			fr.regs[phi] = st.Convert(iv, pv.W, pv.Signed)
+		}
+	}
+	fr.regs[cmp] = &BoolV{Known: true, Val: false}
+	ex.Stats.CopyLoops++
+	return ex.enter(fr, st, exit, head), true
 }
